@@ -166,3 +166,159 @@ func rulePooledBytesClean(c *Ctx) {
 		}
 	}
 }
+
+// Pooled request objects (C19.i). A struct of the module that goes through a sync.Pool (a recycled *Request, *Response,
+// FilterChain) comes back to the next request with whatever its fields held: every field has to be overwritten on the
+// way in (in the function that Puts, before the Put) or on the way out (in the function that Gets, before the object
+// is handed on). A field nobody resets - the attributes map of a pooled Request - is read by the next request.
+func rulePooledStructsReset(c *Ctx) {
+	p := c.P
+	type site struct {
+		fn  *ssa.Function
+		at  ssa.Instruction
+		obj ssa.Value
+		st  *types.Struct
+		tn  string
+	}
+	moduleStruct := func(t types.Type) (*types.Struct, string, bool) {
+		pt, ok := t.Underlying().(*types.Pointer)
+		if !ok {
+			return nil, "", false
+		}
+		n, ok := pt.Elem().(*types.Named)
+		if !ok || n.Obj().Pkg() == nil || !strings.HasPrefix(n.Obj().Pkg().Path(), modulePath) {
+			return nil, "", false
+		}
+		st, ok := n.Underlying().(*types.Struct)
+		return st, n.Obj().Name(), ok
+	}
+	puts := map[poolKey][]site{}
+	gets := map[poolKey][]site{}
+	for _, fn := range p.SrcFunc {
+		eachInstr(fn, func(i ssa.Instruction) {
+			cc := callCommon(i)
+			if cc == nil {
+				return
+			}
+			switch calleeName(cc) {
+			case "(*sync.Pool).Put":
+				k, ok := poolOf(cc.Args[0])
+				if !ok {
+					return
+				}
+				obj := strip(cc.Args[1])
+				if st, tn, ok := moduleStruct(obj.Type()); ok {
+					puts[k] = append(puts[k], site{fn, i, obj, st, tn})
+				}
+			case "(*sync.Pool).Get":
+				k, ok := poolOf(cc.Args[0])
+				if !ok {
+					return
+				}
+				call, ok := i.(*ssa.Call)
+				if !ok {
+					return
+				}
+				for _, r := range referrers(call) {
+					ta, ok := r.(*ssa.TypeAssert)
+					if !ok {
+						continue
+					}
+					st, tn, ok := moduleStruct(ta.AssertedType)
+					if !ok {
+						continue
+					}
+					var obj ssa.Value = ta
+					if ta.CommaOk {
+						for _, r2 := range referrers(ta) {
+							if ex, ok := r2.(*ssa.Extract); ok && ex.Index == 0 {
+								obj = ex
+							}
+						}
+					}
+					gets[k] = append(gets[k], site{fn, i, obj, st, tn})
+				}
+			}
+		})
+	}
+	if len(puts) == 0 {
+		c.triv("-", "pooled objects of the module are reset field by field", "-", "no struct of the module goes through a sync.Pool")
+		return
+	}
+	// resetsField: in s.fn the field is overwritten (or the whole object, or the map cleared) at a point that
+	// dominates `before` (Put side) / every return (Get side)
+	resets := func(s site, idx int, putSide bool) bool {
+		found := false
+		eachInstr(s.fn, func(i ssa.Instruction) {
+			if found {
+				return
+			}
+			var hit bool
+			switch x := i.(type) {
+			case *ssa.Store:
+				if fa, ok := x.Addr.(*ssa.FieldAddr); ok && fa.Field == idx && p.sameVar(fa.X, s.obj) {
+					// not the old value written back
+					self := false
+					for _, src := range p.sources(x.Val, provDefault) {
+						if u, ok := src.(*ssa.UnOp); ok {
+							if fa2, ok := u.X.(*ssa.FieldAddr); ok && fa2.Field == idx && p.sameVar(fa2.X, s.obj) {
+								self = true
+							}
+						}
+					}
+					hit = !self
+				}
+				if p.sameVar(x.Addr, s.obj) {
+					hit = true // *obj = T{...}
+				}
+			case *ssa.Call:
+				if isBuiltinCall(x, "clear") && len(x.Call.Args) == 1 {
+					if u, ok := strip(x.Call.Args[0]).(*ssa.UnOp); ok {
+						if fa, ok := u.X.(*ssa.FieldAddr); ok && fa.Field == idx && p.sameVar(fa.X, s.obj) {
+							hit = true
+						}
+					}
+				}
+			}
+			if !hit {
+				return
+			}
+			if putSide {
+				found = instrDominates(i, s.at)
+				return
+			}
+			if !instrDominates(s.at, i) {
+				return
+			}
+			all := true
+			for _, r := range returnsOf(s.fn) {
+				if !instrDominates(i, r) {
+					all = false
+				}
+			}
+			found = all
+		})
+		return found
+	}
+	for k, ps := range puts {
+		st, tn := ps[0].st, ps[0].tn
+		for idx := 0; idx < st.NumFields(); idx++ {
+			f := st.Field(idx)
+			onPut := true
+			for _, s := range ps {
+				if !resets(s, idx, true) {
+					onPut = false
+				}
+			}
+			onGet := len(gets[k]) > 0
+			for _, g := range gets[k] {
+				if !resets(g, idx, false) {
+					onGet = false
+				}
+			}
+			c.check(onPut || onGet, p.fname(ps[0].fn), "field "+f.Name()+" of the pooled "+tn+" is reset", p.ipos(ps[0].at),
+				"overwritten before every Put of the pool or after every Get",
+				"a "+tn+" goes back to the pool and is handed to a later request with its "+f.Name()+" as the previous request left it: neither the function that puts it back nor the one that takes it out overwrites the field")
+		}
+	}
+}
